@@ -31,9 +31,11 @@ m = {
     "setup_cmd": "make -f tools/Makefile -j16 FLAVOR=asan REPO=/repo",
     "hooks": {
         "guard": "IODINE_VERIF",
-        "enable": "none needed: every seam is link-time (-Wl,--wrap=select,sendto,recvfrom,... and objcopy symbol localisation); /repo/src is compiled unmodified with -DLINUX",
+        "enable": "tools/Makefile compiles /repo/src with -DLINUX -DIODINE_VERIF; the only hook is the macro VERIF_TAIL(buf, used, cap) (common.h; 7 call sites in client.c and iodined.c behind decode calls), which calls "
+                  "iodine_verif_tail() provided by sim/wraps.cc to poison the unused rest of decode buffers (C12 pair runs, memcheck flavour). Without the define it expands to nothing. Every other seam is link-time "
+                  "(-Wl,--wrap=select,sendto,recvfrom,... and objcopy symbol localisation).",
         "baseline_off_cmd": "make -C /repo test",
-        "source_commits": [],
+        "source_commits": ["47826a4"],
         "add_only": True,
     },
     "engines": [{"name": "iosim", "path": "sim/", "serves_properties": sorted(k for k in PROPS if k not in NOT_CLAIMED), "kind_free_text": "deterministic discrete-event simulator hosting the real client and server as ucontext fibers; keyed PRNG decisions; fork-per-run; ASan+UBSan"}],
